@@ -2,18 +2,18 @@
 # usage: seedcheck.sh [seed ids...]  -- for each seeded change: apply it to a scratch worktree of /repo HEAD, run every rule on the
 # changed tree once (-prop ALL) and record in seeded/<id>/meta.json (detected_by) which rules report it; the change counts as
 # reported by the check of its own property when at least one of those rules belongs to that property's rule list
-# (the rule lists come from `bin/frugalvet -describe`, i.e. exactly what `./run.sh <prop>` runs).
+# (the rule lists come from `${FRUGALVET:-bin/frugalvet} -describe`, i.e. exactly what `./run.sh <prop>` runs).
 cd "$(dirname "$0")/.."
 wt=${SEED_WT:-/tmp/scratch/seedwt}
 [ -d $wt ] || git -C /repo worktree add -q --detach $wt HEAD
 ids=("$@"); [ ${#ids[@]} -eq 0 ] && ids=($(ls seeded))
-bin/frugalvet -describe > /tmp/scratch/describe_$$.json
+${FRUGALVET:-bin/frugalvet} -describe > /tmp/scratch/describe_$$.json
 miss=0
 for id in "${ids[@]}"; do
   d=seeded/$id; prop=${id%%-*}
   git -C $wt checkout -q --detach $(git -C /repo rev-parse HEAD) 2>/dev/null; git -C $wt checkout -q -- . ; git -C $wt clean -fdq
   if ! git -C $wt apply "$(readlink -f $d/patch.diff)" 2>/dev/null; then echo "$id: PATCH-DOES-NOT-APPLY"; continue; fi
-  out=$(bin/frugalvet -repo $wt -prop ALL -replaydir /tmp/scratch/seedreplay 2>&1); rc=$?
+  out=$(${FRUGALVET:-bin/frugalvet} -repo $wt -prop ALL -replaydir /tmp/scratch/seedreplay 2>&1); rc=$?
   all=$(echo "$out" | grep -o "\(VIOLATED\|UNDECIDED\) \[[^]]*\]" | sed 's/.*\[\(.*\)\]/\1/' | sort -u | tr '\n' ' ')
   if echo "$out" | grep -q "ANALYSIS-ERROR"; then all="$all ANALYSIS-ERROR"; fi
   git -C $wt checkout -q -- .
